@@ -85,6 +85,7 @@ package storage
 
 //@ func writeUTXO
 //@   trustpre PayloadHash   -- its precondition (payload well-formedness) belongs to C06; irrelevant to the ghost-key binding proved here
+//@   trustpre writeNodePledge writeNodeCancel writeNodeAccept writeNodeRemove   -- their preconditions (node-history invariants, C27: zz_contracts_c27_verif.go, where these four are now VERIFIED and keep the [ghost-frame] clause assumed below) are irrelevant to the ghost-key binding
 //@   property C04
 //@   requires txn != nil && utxo != nil && ver != nil && KeysOK(utxo.Keys)
 //@   requires [index] utxo.Index <= 1024 -- graphUtxoKey; an output index of a decoded transaction
